@@ -847,7 +847,9 @@ impl Sim {
         let mut all = Vec::new();
         loop {
             let mut buf: Vec<DelayedAction> = Vec::with_capacity(32);
-            match self.delayed.recv_many(&mut buf).now_or_never() {
+            // `unconstrained`: tokio's cooperative budget makes a channel report Pending now and then
+            // even though messages are queued; a single poll must not mistake that for "empty".
+            match tokio::task::unconstrained(self.delayed.recv_many(&mut buf)).now_or_never() {
                 Some(n) if n > 0 => all.append(&mut buf),
                 _ => break,
             }
